@@ -1,6 +1,283 @@
 package main
 
-import "verifharness/lib"
+import (
+	"fmt"
+	"strings"
 
-func runLazy(cfg *lib.Config, res *lib.Result, rng *lib.Rng)      {}
-func replayLazy(cfg *lib.Config, res *lib.Result, in interface{}) {}
+	"github.com/lyraproj/pcore/pcore"
+	"github.com/lyraproj/pcore/px"
+	"github.com/lyraproj/pcore/types"
+	"verifharness/lib"
+)
+
+// Lazily cached inferred types and key index of shared Array / Hash values (Model/ConcLazy.v).  A cell is one cache
+// of one fresh shared value; an operation LInfer c asks for it (PType, DetailedValueType, Get) and renders what it got
+// at once: complete = the rendering is that of the same value examined by one goroutine alone.
+
+var lazyKinds = []string{"array.reduced", "array.detailed", "hash.reduced", "hash.detailed", "hash.index"}
+
+type lazyCase struct {
+	Kinds []string `json:"kinds"` // per cell
+	Prog  [][]int  `json:"prog"`  // per thread: the cells it asks for
+	Sched []int    `json:"sched"`
+}
+
+func (c lazyCase) input(sched []int) map[string]interface{} {
+	return map[string]interface{}{"kind": "lazy", "kinds": c.Kinds, "prog": c.Prog, "sched": sched}
+}
+
+func lazyValue(c px.Context, kind string) px.Value {
+	if strings.HasPrefix(kind, "array") {
+		return px.Wrap(c, []interface{}{1, "a"})
+	}
+	return px.Wrap(c, map[string]interface{}{"a": 1, "b": "x"})
+}
+
+func lazyAsk(kind string, v px.Value) (raw interface{}, text string) {
+	switch kind {
+	case "array.reduced", "hash.reduced":
+		t := v.PType()
+		return t, t.String()
+	case "array.detailed", "hash.detailed":
+		t := px.DetailedValueType(v)
+		return t, t.String()
+	case "hash.index":
+		x, ok := v.(px.OrderedMap).Get4("b")
+		return nil, fmt.Sprint(ok, x)
+	}
+	panic("bad kind " + kind)
+}
+
+var lazyRef = map[string]string{}
+
+// which caches store the pointer before the object is complete (Model/ConcLazy.v: pf)
+var publishFirst = map[string]bool{"hash.reduced": true}
+
+func runLazyCase(c lazyCase, pick policy) *runResult {
+	ctx := pcore.NewContext(px.StaticLoader(), pcore.Logger())
+	for _, k := range lazyKinds {
+		if _, ok := lazyRef[k]; !ok {
+			_, lazyRef[k] = lazyAsk(k, lazyValue(ctx, k))
+		}
+	}
+	vals := make([]px.Value, len(c.Kinds))
+	for i, k := range c.Kinds {
+		vals[i] = lazyValue(ctx, k)
+	}
+	jobs := make([][]job, len(c.Prog))
+	for t, cells := range c.Prog {
+		for _, cell := range cells {
+			cell := cell
+			jobs[t] = append(jobs[t], job{fmt.Sprintf("%s(cell %d)", c.Kinds[cell], cell), func(px.Context) (res opRes) {
+				defer func() {
+					if r := recover(); r != nil {
+						res = classifyPanic(r)
+					}
+				}()
+				raw, text := lazyAsk(c.Kinds[cell], vals[cell])
+				return opRes{Kind: "lazy", raw: raw, B: text == lazyRef[c.Kinds[cell]], Text: text}
+			}})
+		}
+	}
+	return runJobs(jobs, pick, nil)
+}
+
+// creators: the object that an operation was handed belongs to the thread whose operation returned it first
+func lazyCreators(rr *runResult) [][]int {
+	first := map[interface{}][2]int{} // pointer -> (step, thread)
+	for t, th := range rr.Results {
+		for i, r := range th {
+			if r.raw == nil || i >= len(rr.DoneAt[t]) {
+				continue
+			}
+			if f, ok := first[r.raw]; !ok || rr.DoneAt[t][i] < f[0] {
+				first[r.raw] = [2]int{rr.DoneAt[t][i], t}
+			}
+		}
+	}
+	out := make([][]int, len(rr.Results))
+	for t, th := range rr.Results {
+		for _, r := range th {
+			if r.raw == nil {
+				out[t] = append(out[t], -1)
+			} else {
+				out[t] = append(out[t], first[r.raw][1])
+			}
+		}
+	}
+	return out
+}
+
+func lazyCheck(c lazyCase, rr *runResult) []verdict {
+	if rr.Hang != "" || rr.Deadlock {
+		return []verdict{{"no-deadlock", "the run did not finish: " + rr.Hang, nil}}
+	}
+	var vs []verdict
+	for t, th := range rr.Results {
+		for i, r := range th {
+			k := c.Kinds[c.Prog[t][i]]
+			switch {
+			case r.Kind != "lazy":
+				vs = append(vs, verdict{"no-crash", fmt.Sprintf("goroutine %d: %s of a shared value escaped: %s %s", t, k, r.Kind, r.Text), nil})
+			case !r.B:
+				var tags []string
+				if k == "hash.reduced" {
+					tags = []string{"hash.reduced"} // known finding: Hash.privateReducedType publishes before it fills in
+				}
+				vs = append(vs, verdict{"never-half-built", fmt.Sprintf("goroutine %d: %s of a shared value observed as %s, alone it is %s", t, k, r.Text, lazyRef[k]), tags})
+			}
+		}
+	}
+	return vs
+}
+
+func gLazyCase(c lazyCase, rr *runResult) string {
+	ts := make([]string, len(c.Prog))
+	for t, cells := range c.Prog {
+		os := make([]string, len(cells))
+		for i, cell := range cells {
+			os[i] = fmt.Sprintf("LInfer %d%%nat", cell)
+		}
+		ts[t] = lib.GList(os, "lop")
+	}
+	cr := lazyCreators(rr)
+	obs := make([]string, len(rr.Results))
+	for t, th := range rr.Results {
+		rs := make([]string, len(th))
+		for i, r := range th {
+			by := "None"
+			if cr[t][i] >= 0 {
+				by = fmt.Sprintf("Some %d%%nat", cr[t][i])
+			}
+			rs[i] = fmt.Sprintf("(%s, %s)", by, lib.GBool(r.Kind == "lazy" && r.B))
+		}
+		obs[t] = lib.GList(rs, "option nat * bool")
+	}
+	pfs := make([]string, len(c.Kinds))
+	for i, k := range c.Kinds {
+		pfs[i] = lib.GBool(publishFirst[k])
+	}
+	return fmt.Sprintf("(%s, %s, %s, %s)", lib.GList(pfs, "bool"), lib.GList(ts, "list lop"), gSched(rr.Sched), lib.GList(obs, "lobs"))
+}
+
+func lazyPrograms() []lazyCase {
+	var cs []lazyCase
+	for _, k := range lazyKinds {
+		cs = append(cs,
+			lazyCase{Kinds: []string{k}, Prog: [][]int{{0}, {0}}},
+			lazyCase{Kinds: []string{k}, Prog: [][]int{{0, 0}, {0, 0}}},
+			lazyCase{Kinds: []string{k}, Prog: [][]int{{0}, {0}, {0}}},
+			lazyCase{Kinds: []string{k, k}, Prog: [][]int{{0, 1}, {1, 0}}},
+		)
+	}
+	cs = append(cs,
+		lazyCase{Kinds: []string{"array.reduced", "array.detailed"}, Prog: [][]int{{0, 1}, {1, 0}, {0}}},
+		lazyCase{Kinds: []string{"hash.reduced", "hash.detailed", "hash.index"}, Prog: [][]int{{0, 1}, {1, 2}, {2, 0}}},
+		lazyCase{Kinds: []string{"array.reduced", "hash.reduced"}, Prog: [][]int{{0}, {1}, {0}, {1}}},
+	)
+	return cs
+}
+
+func lazyCasesFile() *lib.CasesFile {
+	return &lib.CasesFile{Imports: []string{"Model.Base", "Model.Conc", "Model.ConcLazy", "Corr.CorrC13"}, Typ: "lazy_case",
+		Obligations: map[string]string{"lazy_model": "lazy_mismatches cases"}}
+}
+
+func runLazy(cfg *lib.Config, res *lib.Result, rng *lib.Rng) {
+	cf := lazyCasesFile()
+	limit, every := 400, 3
+	if cfg.Thorough() {
+		limit, every = 20000, 10
+	}
+	runs, complete := 0, 0
+	visit := func(c lazyCase, rr *runResult) {
+		runs++
+		res.Evaluations++
+		res.Count("runs.lazy")
+		vs := lazyCheck(c, rr)
+		for _, v := range vs {
+			res.Violate(lib.Violation{Clause: v.clause, What: v.what, Input: c.input(rr.Sched), Tags: v.tags})
+		}
+		if rr.Hang != "" || rr.Deadlock {
+			return
+		}
+		// non-trivial: some goroutine was handed an object that another goroutine built
+		cr := lazyCreators(rr)
+		for t, th := range cr {
+			for _, by := range th {
+				if by >= 0 && by != t {
+					res.Nontrivial(fmt.Sprint("lazy", c.Kinds, c.Prog, rr.Sched))
+				}
+			}
+		}
+		if (len(vs) > 0 && len(cf.Cases) < 1500) || (runs%every == 0 && len(cf.Cases) < 1200) {
+			cf.Add(gLazyCase(c, rr), c.input(rr.Sched))
+		}
+	}
+	for _, c := range lazyPrograms() {
+		n := 0
+		stack := [][]int{nil}
+		done := true
+		for len(stack) > 0 {
+			if n >= limit {
+				done = false
+				break
+			}
+			prefix := stack[len(stack)-1]
+			stack = stack[:len(stack)-1]
+			rr := runLazyCase(c, prefixPolicy(prefix))
+			n++
+			visit(c, rr)
+			if rr.Hang != "" || rr.Deadlock {
+				continue
+			}
+			for i := len(rr.Sched) - 1; i >= len(prefix); i-- {
+				for _, alt := range rr.Enabled[i] {
+					if alt != rr.Sched[i] {
+						stack = append(stack, append(append([]int(nil), rr.Sched[:i]...), alt))
+					}
+				}
+			}
+		}
+		if done {
+			complete++
+		} else {
+			for k := 0; k < 100; k++ {
+				r := rng.Fork()
+				visit(c, runLazyCase(c, noisyPolicy(r, len(c.Prog), 4+r.Intn(12))))
+			}
+		}
+	}
+	res.Extra["lazy_programs"] = len(lazyPrograms())
+	res.Extra["lazy_programs_with_all_schedules_explored"] = complete
+	res.Extra["lazy_runs"] = runs
+	res.CorrFiles = append(res.CorrFiles, cf.WriteTo(cfg.Out, "cases_lazy"))
+}
+
+func replayLazy(cfg *lib.Config, res *lib.Result, in interface{}) {
+	var c lazyCase
+	lib.Remarshal(in, &c)
+	rr := runLazyCase(c, prefixPolicy(c.Sched))
+	fmt.Printf("cells %v\nprogram %v\nschedule %v\n", c.Kinds, c.Prog, rr.Sched)
+	for t, th := range rr.Results {
+		for i, r := range th {
+			fmt.Printf("  goroutine %d op %d (%s): %s %v %s\n", t, i, c.Kinds[c.Prog[t][i]], r.Kind, r.B, r.Text)
+		}
+	}
+	vs := lazyCheck(c, rr)
+	for _, v := range vs {
+		fmt.Printf("FAILS %s: %s\n", v.clause, v.what)
+		res.Violate(lib.Violation{Clause: v.clause, What: v.what, Input: c.input(rr.Sched), Tags: v.tags})
+	}
+	if len(vs) == 0 {
+		fmt.Println("every observation is that of the complete type")
+	}
+	res.Evaluations++
+	if rr.Hang == "" && !rr.Deadlock {
+		cf := lazyCasesFile()
+		cf.Add(gLazyCase(c, rr), in)
+		res.CorrFiles = append(res.CorrFiles, cf.WriteTo(cfg.Out, "cases_lazy"))
+	}
+}
+
+var _ = types.WrapString
